@@ -229,14 +229,25 @@ static int check(const char *kind, const u8 *s, size_t n, char **args, int nargs
 static unsigned long long rng = 88172645463325252ULL;
 static unsigned rnd(void) { rng ^= rng << 13; rng ^= rng >> 7; rng ^= rng << 17; return (unsigned)(rng >> 11); }
 
-static const char *alphabet(const char *kind)
+/* search alphabets: tokens (byte strings), enumerated exhaustively in sequences of up to `maxlen` tokens */
+static const char **alphabet(const char *kind, size_t *n)
 {
-    if (!strncmp(kind, "local", 5)) return "a.\"\\ \r\n\t@(b\x7f\xc3\xa9\x01";
-    if (!strcmp(kind, "host")) return "a1-._A";
-    if (!strcmp(kind, "ipv4")) return "0125.:";
-    if (!strcmp(kind, "ipv6")) return "01a:.f:g";
-    if (!strncmp(kind, "email", 5)) return "a.@[]:1\"IPv6x-";
-    return "abcdefghijklmnopqrstuvwxyz.-0123456789ABCXYZ";
+    /* non-ASCII characters whose code point has a structural low byte (U+012E '.', U+0122 '"', U+015C '\\', U+0100 NUL, U+0140 '@'),
+       a 3- and a 4-byte character, an overlong form, a surrogate, a stray continuation byte */
+    static const char *loc[] = { "a", ".", "\"", "\\", " ", "\r\n ", "\t", "@", "(", "\x7f", "\x01", "\xc3\xa9", "\xc4\xae", "\xc4\xa2", "\xc5\x9c", "\xc4\x80",
+                                 "\xe2\x82\xac", "\xf0\x9f\x98\x80", "\xc0\xaf", "\xed\xa0\x80", "\x80", "\xc3" };
+    static const char *host[] = { "a", "1", "-", ".", "_", "A", "abcdefghijklmnopqrstuvwxyz0123456789abcdefghijklmnopqrstuvwxyz0123456789ab-xyzabcdefg", "$" };
+    static const char *v4[] = { "0", "1", "25", "255", "256", ".", ":", "9", "a" };
+    static const char *v6[] = { "0", "1", "a", "f", ":", "::", ".", "g", "1.2.3.4", "00001", "ffff", "1:2:3:4:5:6:7" };
+    static const char *em[] = { "a", ".", "@", "[", "]", ":", "1", "\"", "IPv6:", "ipv6:", "x", "-", "1.2.3.4", "::1", "com", "example", "test", "b@" };
+    static const char *gen[] = { "a", "b", "c", "d", "e", "l", "m", "n", "o", "p", "s", "t", "x", ".", "-", "0", "E", "X" };
+#define RET(a) do { *n = sizeof(a) / sizeof(*(a)); return (a); } while (0)
+    if (!strncmp(kind, "local", 5)) RET(loc);
+    if (!strcmp(kind, "host")) RET(host);
+    if (!strcmp(kind, "ipv4")) RET(v4);
+    if (!strcmp(kind, "ipv6")) RET(v6);
+    if (!strncmp(kind, "email", 5)) RET(em);
+    RET(gen);
 }
 
 static void print_hex(const u8 *s, size_t n) { for (size_t i = 0; i < n; i++) printf("%02x", s[i]); }
@@ -246,7 +257,7 @@ int main(int argc, char **argv)
     if (argc >= 5 && !strcmp(argv[1], "search")) {
         const char *kind = argv[2]; size_t maxlen = (size_t)atoi(argv[3]); long budget = atol(argv[4]);
         char **args = argv + 5; int nargs = argc - 5;
-        const char *al = alphabet(kind); size_t an = strlen(al);
+        size_t an = 0; const char **al = alphabet(kind, &an);
         u8 buf[600];
         if (!strcmp(kind, "policy")) {      /* finite: all masks over bits 0..10 x all result codes */
             for (int rc = -EEAV_MAX + 1; rc < TLD_TYPE_MAX; rc++) for (int m = 0; m < 2048; m++) {
@@ -271,14 +282,15 @@ int main(int argc, char **argv)
                 }
             }
         }
-        /* exhaustive over short strings of the reduced alphabet, then random longer ones with structure */
+        /* exhaustive over short token sequences of the reduced alphabet, then random longer ones with structure */
         for (size_t len = 0; len <= maxlen && budget > 0; len++) {
             size_t idx[16] = { 0 };
             if (len > 12) break;
             for (;;) {
-                for (size_t i = 0; i < len; i++) buf[i] = (u8)al[idx[i]];
+                size_t bn = 0;
+                for (size_t i = 0; i < len; i++) { size_t l = strlen(al[idx[i]]); if (bn + l < sizeof buf) { memcpy(buf + bn, al[idx[i]], l); bn += l; } }
                 if (--budget <= 0) break;
-                if (check(kind, buf, len, args, nargs, 0)) { printf("FOUND "); print_hex(buf, len); printf("\n"); return 1; }
+                if (check(kind, buf, bn, args, nargs, 0)) { printf("FOUND "); print_hex(buf, bn); printf("\n"); return 1; }
                 size_t k = 0; while (k < len && ++idx[k] == an) idx[k++] = 0;
                 if (k == len) break;
             }
@@ -290,7 +302,7 @@ int main(int argc, char **argv)
                 unsigned r = rnd() % 10;
                 if (r < 6) { const char *w = words[rnd() % (sizeof words / sizeof *words)]; size_t l = strlen(w); memcpy(buf + n, w, l); n += l; if (rnd() % 4 == 0) buf[n - 1] ^= 0x20; }
                 else if (r < 8) { unsigned l = 1 + rnd() % 70; for (unsigned i = 0; i < l && n < 500; i++) buf[n++] = (u8)("abcxyz019-"[rnd() % 10]); }
-                else buf[n++] = (u8)al[rnd() % an];
+                else { const char *w = al[rnd() % an]; size_t l = strlen(w); memcpy(buf + n, w, l); n += l; }
             }
             if (check(kind, buf, n, args, nargs, 0)) { printf("FOUND "); print_hex(buf, n); printf("\n"); return 1; }
         }
